@@ -17,7 +17,7 @@ EXPLANATION = (
     "(size = N * size_of T symbolically, so a guard on size_of T alone leaves N = 0 uncovered); C16.N: the returned pointer reaches a dereference only on the non-null edge of an is_null test whose other edge "
     "diverges into handle_alloc_error; C16.U: between a raw alloc and the Box::from_raw that gives the block an owner no call that can run foreign code occurs (else a panic leaks the block); "
     "C16.P: at every into_raw -> from_raw (and alloc -> from_raw) hand-over the pointer given back is the pointer taken (same base, offset 0) and source and target pointees have equal symbolic size under the dominating facts "
-    "and the same element alignment, so each block is released with the layout it was requested with; C16.A: no other allocator entry point is called. Because the repaired tree contains no raw alloc site, the Z/N/U rules are also run on a "
+    "and the same element alignment, so each block is released with the layout it was requested with; C16.A: no other allocator entry point is called; C16.E: allocation APIs that report failure as a value (try_reserve*, Box::try_new*, Vec::try_with_capacity, Allocator::allocate ..) are used only where failure diverges through handle_alloc_error - no normal return is reachable without the request being known to have succeeded. Because the repaired tree contains no raw alloc site, the Z/N/U rules are also run on a "
     "positive fixture (fixtures/c16_raw_alloc) on which they must fire, so a pass is never vacuous.")
 
 RAW_ALLOC = ("alloc::alloc::alloc", "alloc::alloc::alloc_zeroed", "alloc::alloc::realloc", "alloc::alloc::dealloc")
@@ -78,6 +78,39 @@ def _derived(base, root, depth=0):
     return any(_derived(x, root, depth + 1) for x in base if isinstance(x, tuple))
 
 
+FALLIBLE_ALLOC = ("::try_reserve", "::try_reserve_exact", "::try_with_capacity", "::try_new", "::try_new_uninit", "::try_new_zeroed", "::try_new_uninit_slice",
+                  "::try_new_zeroed_slice", "::try_pin", "::try_clone_from_ref", "core::alloc::Allocator::allocate", "core::alloc::Allocator::allocate_zeroed",
+                  "core::alloc::Allocator::grow", "core::alloc::GlobalAlloc::alloc")
+
+
+def is_fallible_alloc(fn):
+    return fn.startswith(("alloc::", "core::alloc::")) and any(fn.endswith(x) or (x + "_in") in fn for x in FALLIBLE_ALLOC)
+
+
+def fallible_alloc_rule(db, body, emit):
+    """C16.E: an allocation API that REPORTS failure as a value (try_reserve*, Box::try_new*, Vec::try_with_capacity, Allocator::allocate ..) may only be used
+    when the failure ends through handle_alloc_error: no function exit (normal return) may be reachable from the call unless it is known, on that path,
+    that the request succeeded - and every path on which it failed must reach handle_alloc_error. Judged on the tree-shaped body (path-exact facts)."""
+    from ..mirxf import treeify
+    a = analyze(db, treeify(body))
+    sites = [c for c in a.calls if is_fallible_alloc(c.fn)]
+    for i, c in enumerate(sites):
+        site = "%s#%s#%d" % (body["key"], c.fn.split("::")[-1], i)
+        hae = [h for h in a.calls if h.fn == "alloc::alloc::handle_alloc_error"]
+        bad = []
+        for r in a.returns:
+            if not (c.bb == r["bb"] or a.reaches(c.bb, r["bb"])):
+                continue
+            succeeded = ("variant", c.ret, 0) in r["facts"] or ("b", ("is_ok", c.ret), True) in r["facts"] or ("b", ("is_some", c.ret), True) in r["facts"]
+            if not succeeded:
+                bad.append("return at bb%d under %s" % (r["bb"], fstr(r["facts"])[:160]))
+        ok = not bad
+        emit("C16.E", site, PROVED if ok else REFUTED,
+             ("%s reports allocation failure as a value; every function exit reachable from it is on a path where the request is known to have succeeded (failure diverges; handle_alloc_error calls: %d)" % (c.fn, len(hae))) if ok else
+             ("%s reports allocation failure as a value, and the function can return normally without that request being known to have succeeded (the failure does not end through the standard allocation-error path): %s" % (c.fn, "; ".join(bad[:3]))), c.at)
+    return len(sites)
+
+
 def check_raw_sites(ctx, cfg):
     db = ctx.db(cfg)
     n = 0
@@ -88,6 +121,11 @@ def check_raw_sites(ctx, cfg):
             continue
         n += raw_alloc_rules(db, b, lambda rule, key, st, det, at: ctx.ob(rule, key, st, det, at=at, cfg=cfg, frozen=False if st == PROVED else True))
     ctx.ob("C16.A", "raw allocator call sites (%s)" % cfg, PROVED, "%d raw alloc::alloc::* call site(s) in the crate; each checked by C16.Z/N/U" % n, cfg=cfg)
+    ne = 0
+    for b in db.bodies:
+        if b["kind"] in ("Fn", "AssocFn", "Closure") and any(t["term"]["k"] == "call" and t["term"]["f"].get("k") == "fn" and is_fallible_alloc(t["term"]["f"]["def"]) for t in b["mir"]["blocks"]):
+            ne += fallible_alloc_rule(db, b, lambda rule, key, st, det, at: ctx.ob(rule, key, st, det, at=at, cfg=cfg))
+    ctx.ob("C16.E", "fallible allocation call sites (%s)" % cfg, PROVED, "%d call site(s) of allocation APIs that report failure as a value (try_reserve*, try_new*, try_with_capacity, Allocator::allocate ..); each must diverge through handle_alloc_error on failure" % ne, cfg=cfg)
     return n
 
 
@@ -107,6 +145,13 @@ def check_fixture(ctx, cfg):
             raw_alloc_rules(fdb, body, lambda rule, key, st, det, at: got.append((rule, st)))
     fired = {r for r, st in got if st == REFUTED}
     ctx.ob("C16.fixture", "raw_generate", fired == {"C16.Z", "C16.N", "C16.U"}, "rules firing on the positive fixture: %s (required: Z, N and U)" % sorted(fired), cfg=cfg)
+    gote = {}
+    for body in fdb.bodies:
+        if body["key"] in ("swallowed_reservation", "diverging_reservation"):
+            fallible_alloc_rule(fdb, body, lambda rule, key, st, det, at, k=body["key"]: gote.setdefault(k, []).append(st))
+    ok = gote.get("swallowed_reservation") == [REFUTED] and gote.get("diverging_reservation") == [PROVED]
+    ctx.ob("C16.fixture", "fallible_reservation", ok, "C16.E on the fixture: swallowed failure -> %s (required: refuted), failure diverging through handle_alloc_error -> %s (required: proved)" % (
+        gote.get("swallowed_reservation"), gote.get("diverging_reservation")), cfg=cfg)
 
 
 VEC_ADOPT = ("alloc::vec::Vec::<T>::from_raw_parts", "alloc::vec::Vec::<T, A>::from_raw_parts_in")
